@@ -25,15 +25,15 @@ type OpKind int
 
 // Logged mutating calls.
 const (
-	OpCreate   OpKind = iota // Name -> new inode Ino
-	OpWrite                  // Ino, Off, Data
-	OpTruncate               // Ino, Size
-	OpSync                   // Ino
-	OpRename                 // Name -> Name2
-	OpRemove                 // Name
-	OpLockCreate             // Name (lock file created or re-acquired; Existed says which)
-	OpLockRemove             // Name
-	OpMkdir                  // Name
+	OpCreate     OpKind = iota // Name -> new inode Ino
+	OpWrite                    // Ino, Off, Data
+	OpTruncate                 // Ino, Size
+	OpSync                     // Ino
+	OpRename                   // Name -> Name2
+	OpRemove                   // Name
+	OpLockCreate               // Name (lock file created or re-acquired; Existed says which)
+	OpLockRemove               // Name
+	OpMkdir                    // Name
 )
 
 func (k OpKind) String() string {
@@ -112,12 +112,14 @@ type FS struct {
 
 // Stats are counters read by the oracles.
 type Stats struct {
-	MaxReadLen    int64 // largest single read/slice length requested
-	OpenHandles   int
-	Calls         int
-	BytesRead     int64
-	SlicesHanded  int
+	MaxReadLen     int64 // largest single read/slice length requested
+	OpenHandles    int
+	Calls          int
+	BytesRead      int64
+	SlicesHanded   int
 	SlicesPoisoned int
+	NonAppendSeg   int    // writes to *.psg files that did not start exactly at the end of the file
+	NonAppendDesc  string // description of the first such write
 }
 
 // New returns an empty file system.
@@ -482,6 +484,12 @@ func (h *File) writeAt(p []byte, off int64) (int, error) {
 		return 0, err
 	}
 	h.fs.poison(h.in, nil)
+	if off != int64(len(h.in.Data)) && strings.HasSuffix(h.name, ".psg") {
+		h.fs.Stats.NonAppendSeg++
+		if h.fs.Stats.NonAppendDesc == "" {
+			h.fs.Stats.NonAppendDesc = fmt.Sprintf("write of %d bytes to %s at offset %d, file length %d", len(p), h.name, off, len(h.in.Data))
+		}
+	}
 	end := off + int64(len(p))
 	if end > int64(len(h.in.Data)) {
 		nd := make([]byte, end)
